@@ -269,11 +269,36 @@ func (x *Exec) spawn(fr *frame, instr *ssa.Go, fn Value, args []Value) {
 // yield is a scheduling point before a visible operation of the current thread.
 func (x *Exec) yield(fr *frame, what string) { x.yieldOp(fr, what, nil, true) }
 
+// atomicKind names an atomic operation for the schedule trace. Only call sites in the files that
+// the native replay build instruments (instrumentFiles) can be ordered natively; operations
+// elsewhere (e.g. the global level in globals.go) are recorded as "atomic~..." which the native
+// scheduler does not wait for.
+func (x *Exec) atomicKind(fr *frame, name string) string {
+	for c := fr.caller; c != nil; c = c.caller {
+		if c.fn == nil || c.fn.Pkg == nil || !isZerologPkg(c.fn.Pkg.Pkg.Path()) {
+			continue
+		}
+		file := x.eng.prog.Fset.Position(c.fn.Pos()).Filename
+		for _, f := range instrumentFiles {
+			if strings.HasSuffix(file, "/"+f) {
+				return "atomic." + name
+			}
+		}
+		break
+	}
+	return "atomic~" + name
+}
+
 // yieldOp: scheduling point before a visible operation on the object `key` (nil = unknown:
 // dependent with everything); write=false for pure reads (two reads of one object commute).
 func (x *Exec) yieldOp(fr *frame, what string, key interface{}, write bool) {
 	sc := x.schedState
 	if sc == nil || !sc.multi || x.atomicDepth > 0 {
+		if sc != nil && !sc.multi && x.atomicDepth == 0 && x.cur != nil && len(x.schedTrace) < 400 {
+			// single-threaded prefix: no scheduling decision, but the native schedule replay
+			// counts these operations too
+			x.schedTrace = append(x.schedTrace, fmt.Sprintf("T%d:%s", x.cur.id, what))
+		}
 		return
 	}
 	th := x.cur
@@ -344,6 +369,17 @@ func (x *Exec) chanRecv(fr *frame, c Value, commaOk bool, t types.Type) Value {
 	if ch == nil {
 		x.block(fr, "recv on nil chan", func() bool { return false })
 	}
+	if ch.timer && len(ch.buf) == 0 {
+		if !ch.armed {
+			x.block(fr, "recv on stopped timer", func() bool { return false })
+		}
+		x.waitTimer(fr, "timer recv", func() bool { return false })
+		ch.armed = false
+		if commaOk {
+			return Tuple{x.zero(t.(*types.Tuple).At(0).Type()), x.f.Bool(true)}
+		}
+		return x.zero(t)
+	}
 	if len(ch.buf) == 0 && !ch.closed {
 		x.block(fr, "chan recv", func() bool { return len(ch.buf) > 0 || ch.closed })
 	}
@@ -366,6 +402,26 @@ func (x *Exec) chanRecv(fr *frame, c Value, commaOk bool, t types.Type) Value {
 		return Tuple{v, x.f.Bool(ok)}
 	}
 	return v
+}
+
+// waitTimer parks the current thread like time.Sleep does (time passes when another thread has
+// made progress or when nothing else can run) or until other() holds. Single-threaded runs do
+// not wait.
+func (x *Exec) waitTimer(fr *frame, what string, other func() bool) {
+	sc := x.schedState
+	if sc == nil || !sc.multi {
+		return
+	}
+	th := x.cur
+	th.sleeps++
+	if x.eng.cfg.MaxSleeps > 0 && th.sleeps > x.eng.cfg.MaxSleeps {
+		abortf("thread slept more than %d times (unwinding bound)", x.eng.cfg.MaxSleeps)
+	}
+	at := sc.progress - th.ownProgress
+	th.sleeping, th.wake = true, false
+	th.opKnown = false
+	x.block(fr, what, func() bool { return other() || sc.progress-th.ownProgress != at || th.wake })
+	th.sleeping = false
 }
 
 func (x *Exec) chanClose(fr *frame, c Value) {
@@ -406,9 +462,26 @@ func (x *Exec) selectStmt(fr *frame, instr *ssa.Select) Value {
 		return -1
 	}
 	chosen := ready()
+	timerCase := -1
+	for i, st := range instr.States {
+		if ch, ok := fr.get(st.Chan).(*Chan); ok && ch != nil && ch.timer && ch.armed && st.Dir == types.RecvOnly && len(ch.buf) == 0 {
+			timerCase = i
+		}
+	}
 	if chosen < 0 && instr.Blocking {
-		x.block(fr, "select", func() bool { return ready() >= 0 })
-		chosen = ready()
+		if timerCase >= 0 {
+			x.waitTimer(fr, "select (timer)", func() bool { return ready() >= 0 })
+			chosen = ready()
+			// time has passed (or another case became ready): the timer may have fired as well
+			if chosen < 0 || x.choice(2, "select-timer@"+x.posOf(fr.curInstr)) == 1 {
+				chosen = timerCase
+				fr.get(instr.States[timerCase].Chan).(*Chan).armed = false
+				x.progress()
+			}
+		} else {
+			x.block(fr, "select", func() bool { return ready() >= 0 })
+			chosen = ready()
+		}
 	}
 	r := Tuple{x.f.Const(64, uint64(int64(chosen))), x.f.Bool(false)}
 	for i, st := range instr.States {
@@ -421,6 +494,8 @@ func (x *Exec) selectStmt(fr *frame, instr *ssa.Select) Value {
 				ch.buf = ch.buf[1:]
 				r[1] = x.f.Bool(true)
 				x.progress()
+			} else if i == chosen && ch.timer {
+				r[1] = x.f.Bool(true)
 			}
 			r = append(r, v)
 		} else if i == chosen {
@@ -659,6 +734,44 @@ func registerSchedIntrinsics() {
 		return nil
 	}
 
+	// ---- timers: NewTimer / After / Stop / Reset (the channel fires "when time passes") ----
+	newTimerChan := func() *Chan { return &Chan{cap: 1, timer: true, armed: true} }
+	intrinsics["time.NewTimer"] = func(fr *frame, a []Value) Value {
+		x := fr.x
+		tp := x.eng.prog.ImportedPackage("time")
+		if tp == nil || tp.Type("Timer") == nil {
+			abortf("time.Timer not loaded")
+		}
+		st := x.zero(tp.Type("Timer").Object().Type()).(Struct)
+		st[0] = newTimerChan()
+		var cell Value = st
+		return &cell
+	}
+	intrinsics["time.After"] = func(fr *frame, a []Value) Value { return newTimerChan() }
+	timerChan := func(a []Value) *Chan {
+		p, _ := a[0].(*Value)
+		if p == nil {
+			abortf("nil *time.Timer")
+		}
+		ch, _ := (*p).(Struct)[0].(*Chan)
+		if ch == nil || !ch.timer {
+			abortf("time.Timer not created by NewTimer")
+		}
+		return ch
+	}
+	intrinsics["(*time.Timer).Stop"] = func(fr *frame, a []Value) Value {
+		ch := timerChan(a)
+		was := ch.armed
+		ch.armed = false
+		return fr.x.f.Bool(was)
+	}
+	intrinsics["(*time.Timer).Reset"] = func(fr *frame, a []Value) Value {
+		ch := timerChan(a)
+		was := ch.armed
+		ch.armed = true
+		return fr.x.f.Bool(was)
+	}
+
 	// ---- sync/atomic ----
 	type rmw func(x *Exec, old *Term, args []Value) (*Term, Value)
 	atomicOp := func(name string, write bool, op func(fr *frame, p *Value, a []Value) Value) {
@@ -668,7 +781,7 @@ func registerSchedIntrinsics() {
 			if !ok || p == nil {
 				x.runtimePanic(fr, "invalid memory address or nil pointer dereference (atomic)")
 			}
-			x.yieldOp(fr, "atomic."+name, p, write)
+			x.yieldOp(fr, x.atomicKind(fr, name), p, write)
 			x.atomicOps++
 			r := op(fr, p, a)
 			if write {
